@@ -158,6 +158,7 @@ def _job(job):
         st.notes.append(f'duplicated candidates: states={n_states} depth_bound={depth_bound}')
     elif kind == 'e2e':
         _e2e(st, job[1])
+        _e2e_growing(st)
     elif kind == 'e2e_task':
         return _e2e_task(job[1])
     return st
@@ -204,6 +205,61 @@ def _e2e(st, n_batches):
         if fails:
             st.violation({'kind': 'e2e', 'columns': cols, 'cap': cap, 'batches': n_batches}, '; '.join(fails),
                          {'family': 'e2e', 'fail': fails[0][:40]})
+    harness.reset_state()
+
+
+def _e2e_growing(st):
+    """(c3) the candidate list grows between batches (a multi-value feature shows new tokens) while the cap stays fixed; also the Constant heuristic:
+    every batch must evaluate exactly min(cap, #candidates of THAT batch) pairs and the counter must follow"""
+    from mc import harness
+    cr = _cr()
+    batches = [
+        [['x', '0'], ['x', '1'], ['x', '0'], ['', '1']],
+        [['x,y', '0'], ['y,z', '1'], ['z', '0'], ['x', '1']],
+        [['x', '1'], ['x', '0'], ['', '0'], ['x', '1']],
+        [['w,x,y,z', '0'], ['w', '1'], ['y', '0'], ['z', '1']],
+    ]
+    for heuristic in ('MI-numba-randomized', 'Constant'):
+        for cap in (2, 3, 4, 6):
+            harness.reset_state()
+            args = harness.make_args(combination_number_upper_bound=cap, heuristic=heuristic, target_ranking_only='True', explode_multivalue_features='m')
+            seen_cols = []
+            orig = cr.mixed_rank_graph
+
+            def rec(df, *a, **k):
+                seen_cols.append(list(df.columns))
+                return orig(df, *a, **k)
+
+            cr.mixed_rank_graph = rec
+            tally = Counter()
+            fails = []
+            try:
+                for b, rows in enumerate(batches):
+                    ok, res = safe(cr.compute_batch_ranking, [list(r) for r in rows], set(), args, harness.InlinePool(), ['m', 'label'], harness.RecLogger(), harness.NullBar())
+                    st.count('evaluations')
+                    st.count('transitions')
+                    st.count('traces_validated')
+                    if not ok:
+                        fails.append(f'batch {b}: exception {res}')
+                        break
+                    n_cand = len(seen_cols[-1])
+                    pairs = {frozenset((a, bb)) for a, bb, _ in res[0].triplet_scores}
+                    if len(pairs) != min(cap, n_cand):
+                        fails.append(f'batch {b}: {len(pairs)} pairs evaluated with cap {cap} and {n_cand} candidates (columns {seen_cols[-1]})')
+                        break
+                    for p_ in pairs:
+                        tally[p_] += 1
+                    g = Counter()
+                    for k_, v_ in cr.GLOBAL_PRIOR_COMB_COUNTS.items():
+                        g[frozenset(k_)] += v_
+                    if dict(g) != dict(tally):
+                        fails.append(f'batch {b}: reported counts { {tuple(sorted(k_)): v_ for k_, v_ in g.items()} } != batches in which each pair was evaluated { {tuple(sorted(k_)): v_ for k_, v_ in tally.items()} }')
+                        break
+            finally:
+                cr.mixed_rank_graph = orig
+            st.count('states', len(batches))
+            if fails:
+                st.violation({'kind': 'e2e_growing', 'heuristic': heuristic, 'cap': cap}, '; '.join(fails), {'family': 'e2e_growing', 'heuristic': heuristic, 'fail': fails[0][9:40]})
     harness.reset_state()
 
 
@@ -279,6 +335,10 @@ def run(ctx):
 
 def eval_case(case):
     """Replay one event history (family inferred from the events' shape) or an e2e configuration."""
+    if case.get('kind') == 'e2e_growing':
+        st = Stats()
+        _e2e_growing(st)
+        return [v['what'] for v in st.violations if v['case']['heuristic'] == case['heuristic'] and v['case']['cap'] == case['cap']]
     if case.get('kind') == 'e2e_task':
         return [v['what'] for v in _e2e_task([(case['q'], case['t'], case['B'], case['cap'])]).violations]
     if case.get('kind') == 'e2e':
